@@ -908,7 +908,7 @@ int main(int argc, char** argv) {
             for (int a = 0; a < 5; ++a) for (int b = 0; b < 5; ++b) for (char t : targets)
                 for (const char* o : { "+", "-", "*", "/", "^", "<", "UADD" })
                     emitType(mk({ "#" + std::to_string(a), o, "#" + std::to_string(b) }), t, "pair");
-            int n = thorough ? 6000 : 1200;
+            int n = thorough ? 15000 : 3000;
             const Strs ops = { "+", "-", "*", "/", "^", "<", "==", "UADD", "UMIN" };
             const Strs funcs = { "SUM", "MAX", "ABS", "DEF", "SORTA", "AVEA" };
             const Strs odd = { "COFR", "AAQR", "BPR", ")", "(", "+", "*" };
@@ -939,7 +939,7 @@ int main(int argc, char** argv) {
         //     quote_split / next_token / normalize_string_tokens / make_udq_tokens
         {
             World w0 = makeWorld(rng, false);
-            int n = thorough ? 5000 : 1200;
+            int n = thorough ? 12000 : 3000;
             for (int k = 0; k < n; ++k) {
                 Strs toks = lexExpr(rng, w0);
                 Strs items = glueItems(rng, toks, rng.range(0, 3), 3);
@@ -964,7 +964,7 @@ int main(int argc, char** argv) {
         //     read each other (this step's or the previous step's value, by input order) and are
         //     occasionally re-DEFINEd; after every step the whole UDQState content is compared.
         {
-            int nh = thorough ? 1200 : 250;
+            int nh = thorough ? 3000 : 600;
             for (int k = 0; k < nh; ++k) {
                 World w0 = makeWorld(rng, rng.coin(1, 3));
                 UDQParams udqp;
